@@ -311,7 +311,7 @@ class ExprMixin:
 
     def ref_read_code(self, ref, line=0):
         e = ref.entry
-        self.note_read(e, line)
+        self.note_read(e, line, ref)
         if e.store == "S":
             code = f"S[{e.sid}]"
         elif e.store == "V":
@@ -638,7 +638,7 @@ class ExprMixin:
             r = self.resolve_ref(args[0])
             if r.ty != SL or r.entry.store != "S":
                 self.err(f"line {line}: {name} needs a std_logic signal, got {tname(r.ty)} {r.entry.kind}")
-            self.note_read(r.entry, line)
+            self.note_read(r.entry, line, r)
             self.note_edge()
             cur = self.ref_read_code(r, line)
             last = cur.replace("S[", "L[", 1)
